@@ -321,15 +321,20 @@ def scanMantissa (cs : List Char) : Option (List Char × List Char × List Char)
 def signedToDbl (r : Rat → Dbl) (neg : Bool) (q : Rat) : Dbl :=
   if q = 0 then .zero neg else r (if neg then -q else q)
 
+/-- the optional minus sign -/
+def splitMinus : List Char → Bool × List Char
+  | '-' :: t => (true, t)
+  | t => (false, t)
+
+/-- the value once the Number has been scanned: the whole rest of the string must be consumed -/
+def number10Body (R : Rounding) (neg : Bool) : Option (List Char × List Char × List Char) → Dbl
+  | some (i, f, []) => signedToDbl R.r64 neg (decimalToRat i f 0)
+  | _ => .nan
+
 /-- XPath 1.0 number() on a string -/
 def number10 (R : Rounding) (cs : List Char) : Dbl :=
   let s := stripWith isXmlSpace cs
-  let (neg, body) := match s with
-    | '-' :: t => (true, t)
-    | t => (false, t)
-  match scanMantissa body with
-  | some (i, f, []) => signedToDbl R.r64 neg (decimalToRat i f 0)
-  | _ => .nan
+  number10Body R (splitMinus s).1 (scanMantissa (splitMinus s).2)
 
 /-- an XPath 1.0 operand: a number (however the implementation represents it) or a string -/
 inductive Opnd10
